@@ -191,4 +191,18 @@ example : exportTrace (α := Rat) [] (fun q : Rat => q.floor) ⟨id, fun _ x => 
       .write "a".toList [0, 1, 2, 3, 4] [1, 2, 3, 4, 5], .write "b".toList [0, 1, 2, 3, 4] [5, 11/2, 6, 13/2, 7]] := by
   decide +kernel
 
+/-- Non-vacuity of the partial theorem's premises: two series on the lattice `0 + ℕ·1` and a window inside both. -/
+example : isCommonTime (α := Rat) [lattice 0 1 0 4, lattice 0 1 1 4] (some (1, 3)) = some true ∧
+    windowT (1 : Rat) 3 (lattice 0 1 0 4) = windowT 1 3 (lattice 0 1 1 4) := by
+  decide +kernel
+
+/-- The representability predicates are satisfiable. -/
+example : KeySafe "Tension [kN]".toList ∧ DatSafe "acc(1)".toList ∧
+    H5Safe [("a".toList, uniform (0 : Rat) (1/2) 3, [5, 6, 7])] := by
+  refine ⟨by unfold KeySafe; decide, by unfold DatSafe; decide, by decide, ?_⟩
+  intro it hit
+  simp only [List.mem_cons, List.not_mem_nil, or_false] at hit
+  subst hit
+  exact ⟨by decide, by decide, 0, 1/2, 3, by decide, rfl, rfl⟩
+
 end Qats.Props.C07
